@@ -762,7 +762,11 @@ func genRenderWide(r *rand.Rand, emit func(Op)) {
 			src = "<a href=\"" + long + "\">l</a>"
 		case 1:
 			/* shown, hence styled: bounded */
-			src = "<img src=\"" + long[:3000+r.Intn(3000)] + "\">"
+			cut := 3000 + r.Intn(3000)
+			if cut > len(long) {
+				cut = len(long)
+			}
+			src = "<img src=\"" + long[:cut] + "\">"
 			src = strings.ToValidUTF8(src, "")
 		case 2:
 			src = "<img src=\"https://t.example/i\" alt=\"" + strings.Repeat("alt ", 500+r.Intn(900)) + "\">"
